@@ -12,7 +12,7 @@ use std::{
     time::{Duration, Instant},
 };
 
-use crate::simnet::{SHARD_PROGRESS, set_shard};
+use crate::simnet::{SHARD_EXTERNAL, SHARD_PROGRESS, set_shard};
 
 #[derive(Clone, Copy, PartialEq, Eq, Debug)]
 pub enum Tier {
@@ -92,6 +92,9 @@ pub struct Agg {
     pub viols: Vec<(String, u64, u64, Viol)>,
     pub inconclusive: Vec<String>,
     pub stuck: Vec<(String, u64, u64)>,
+    /// runs abandoned by the watchdog whose thread was running all the time while the progress counter stood
+    /// still: a busy loop inside a single poll (no other task of the runtime can run)
+    pub spinning: Vec<(String, u64, u64)>,
 }
 
 impl Agg {
@@ -155,6 +158,7 @@ impl Agg {
         self.viols.extend(other.viols);
         self.inconclusive.extend(other.inconclusive);
         self.stuck.extend(other.stuck);
+        self.spinning.extend(other.spinning);
     }
 
     pub fn counter(&self, k: &str) -> u64 {
@@ -299,15 +303,33 @@ pub fn shard_runs(
                 // OS-level quiescence check for this shard's threads.
                 let prefix = format!("sh{shard}-");
                 let mut quiescent = true;
+                let mut spinning = true;
                 let p0 = SHARD_PROGRESS[shard % 64].load(Ordering::Relaxed);
-                for _ in 0..4 {
+                let e0 = SHARD_EXTERNAL[shard % 64].load(Ordering::Relaxed);
+                let mut last_p = p0;
+                for _ in 0..20 {
                     std::thread::sleep(Duration::from_millis(150));
                     let states = thread_states(&prefix);
                     if states.is_empty() || states.iter().any(|(_, s)| *s != 'S') {
                         quiescent = false;
                     }
-                    if SHARD_PROGRESS[shard % 64].load(Ordering::Relaxed) != p0 {
+                    // busy without any externally visible event: either one poll that never returns (progress
+                    // frozen) or tasks that keep waking each other (polls advance in every sample)
+                    let p = SHARD_PROGRESS[shard % 64].load(Ordering::Relaxed);
+                    let frozen = p == p0;
+                    let churning = p != last_p;
+                    last_p = p;
+                    if !states.iter().any(|(n, s)| n.ends_with("main") && *s == 'R') || !(frozen || churning) {
+                        spinning = false;
+                    }
+                    if SHARD_EXTERNAL[shard % 64].load(Ordering::Relaxed) != e0 {
+                        spinning = false;
+                    }
+                    if p != p0 {
                         quiescent = false;
+                    }
+                    if !quiescent && !spinning {
+                        break;
                     }
                 }
                 if cur[shard].0.load(Ordering::Relaxed) != r {
@@ -317,6 +339,8 @@ pub fn shard_runs(
                 let rseed = mix(ctx.seed, run, 0);
                 if quiescent {
                     agg.stuck.push((phase.to_string(), run, rseed));
+                } else if spinning {
+                    agg.spinning.push((phase.to_string(), run, rseed));
                 } else {
                     agg.inconclusive.push(format!("{phase}#{run}: watchdog fired after {per_run_watchdog:?} (threads not quiescent)"));
                 }
@@ -400,6 +424,10 @@ pub fn finish(ctx: &Ctx, agg: Agg, rep: Report) -> i32 {
     coverage.insert(
         "stuck_runs".into(),
         json!(agg.stuck.iter().map(|(p, r, s)| format!("{p}#{r} seed={s}")).collect::<Vec<_>>()),
+    );
+    coverage.insert(
+        "spinning_runs".into(),
+        json!(agg.spinning.iter().map(|(p, r, s)| format!("{p}#{r} seed={s}")).collect::<Vec<_>>()),
     );
     coverage.insert(
         "known_findings_observed".into(),
